@@ -172,6 +172,8 @@ class World:
                 'que': bool(schedule.que),
                 'accepted': True,
             }
+            if getattr(self, 'fire_extra', None) is not None:
+                rec.update(self.fire_extra())
             try:
                 return orig(*a, **k)
             except Exception:
